@@ -40,7 +40,7 @@ ASSUMPTIONS = [
     'BlockSliceQuery.find_proposal_injection is excluded: it calls a non-existent OperationListListQuery.find_votes after the search returns '
     '(a defect outside this statement).',
 ]
-EXPECTED_PROBES = ['change_at_last_plus_1', 'change_at_head', 'adjacent_changes', 'step_exceeds_range', 'no_change_in_range', 'fault_during_search',
+EXPECTED_PROBES = ['slice_reused_for_second_search', 'change_at_last_plus_1', 'change_at_head', 'adjacent_changes', 'step_exceeds_range', 'no_change_in_range', 'fault_during_search',
                    'chain_grew_during_search']
 
 PKH = 'tz1VSUr8wwNhLAzempoch5d6hLRiTh8Cjcjb'
@@ -102,10 +102,19 @@ def gen(seed, tier):
                 [{'f': 'transient', 'n': rng.randint(1, 5), 'status': rng.choice([500, 502, 503])}, {'f': 'preval', 'n': rng.randint(1, 5)},
                  {'f': 'latency', 'ms': rng.choice([10, 3000, 20000])}]
             )
+    baker = rng.random() < 0.4
+    slice_mode = 'closed'
+    if kind in ('api:ballots', 'api:upvotes') and rng.random() < 0.4:
+        # less common ways to designate the same block range: an open slice (stop = head) or a negative start
+        slice_mode = rng.choice(['open', 'neg'])
+        H = head + 1
+        outside = []
+        if slice_mode == 'neg':
+            baker = False  # a growing chain would move the start of a head-relative range
     return {
         'prop': ID, 'kind': kind, 'H': H, 'head': head, 'last': last, 'step': step, 'changes': changes, 'outside': outside,
-        'faults': faults, 'baker': rng.random() < 0.4, 'latency_ms': rng.choice([0, 0, 5, 400]), 'nvotes': rng.choice([1, 1, 2, 3]),
-        'steps': [],
+        'faults': faults, 'baker': baker, 'latency_ms': rng.choice([0, 0, 5, 400]), 'nvotes': rng.choice([1, 1, 2, 3]),
+        'slice_mode': slice_mode, 'presearch': kind.startswith('api:') and rng.random() < 0.35, 'steps': [],
     }
 
 
@@ -270,7 +279,25 @@ def execute(scn, want_log=False):
                 result = list(walk_state_change_interval(head, last, getter, eq, head_value=hist[head], last_value=hist[last]))
             elif kind == 'api':
                 # slice [last : head+1] -> the helper searches (last, head] (it passes head = stop - 1)
-                sl = shell.blocks[last : head + 1]
+                mode = scn.get('slice_mode', 'closed')
+                if mode == 'open':
+                    sl = shell.blocks[last:]
+                elif mode == 'neg':
+                    sl = shell.blocks[-(scn['H'] - last) :]
+                else:
+                    sl = shell.blocks[last : head + 1]
+                if scn.get('presearch'):
+                    # the same slice object is first used for another search: nothing of it may leak into the judged one
+                    sim.ev('presearch')
+                    if what == 'upvotes':
+                        list(sl.find_upvotes(PROP_B))
+                    elif what == 'ballots':
+                        list(sl.find_ballots())
+                    else:
+                        try:
+                            sl.find_origination(oc.b58enc('KT1', oc.blake2b(b'never-originated', 20)))
+                        except Exception:  # noqa: BLE001  (a contract that never appears: whatever the helper does, it must not poison the next search)
+                            pass
                 if what == 'ballots':
                     result = [op['hash'] for op in sl.find_ballots()]
                 elif what == 'upvotes':
@@ -295,6 +322,8 @@ def execute(scn, want_log=False):
         bump('step_exceeds_range')
     if not exp_changes:
         bump('no_change_in_range')
+    if scn.get('presearch'):
+        bump('slice_reused_for_second_search')
     if sim.stats.get('fault:transient', 0) + sim.stats.get('fault:preval', 0) + sim.stats.get('fault:latency', 0):
         bump('fault_during_search')
     if node.head['level'] > level0:
@@ -388,6 +417,14 @@ def simplify(scn):
         c = cp()
         c['baker'] = False
         yield c
+    if scn.get('slice_mode', 'closed') != 'closed':
+        c = cp()
+        c['slice_mode'] = 'closed'
+        yield c
+    if scn.get('presearch'):
+        c = cp()
+        c['presearch'] = False
+        yield c
     if scn['latency_ms']:
         c = cp()
         c['latency_ms'] = 0
@@ -443,6 +480,11 @@ def valid(scn):
         return False
     api = scn['kind'].startswith('api:')
     orig = scn['kind'] == 'api:origination'
+    if scn.get('slice_mode', 'closed') != 'closed':
+        if scn['H'] != scn['head'] + 1 or scn['outside'] or scn['kind'] not in ('api:ballots', 'api:upvotes'):
+            return False
+        if scn['slice_mode'] == 'neg' and scn['baker']:
+            return False
     if scn['step'] < 1 or not (scn['last'] < scn['head'] < scn['H']):
         return False
     if orig:
